@@ -140,11 +140,7 @@ def run(prop: str, tier: str) -> int:
                 pairs += len(cands)
                 nontrivial += 1 if rec["hits"] else 0
         res.sample({"shipped_searchers": len(shipped), "texts": len(texts)})
-    r = tlc.run("KeywordTrace", "SPECIFICATION Spec\nCHECK_DEADLOCK FALSE\n", env={"TRACE_FILE": path}, timeout=3000, heap="12g")
-    v = r.verdicts()
-    judged = [t for t, cl in v.items() if "ACCEPT" in cl or "REJECT" in cl]
-    if not r.completed or len(judged) != n:
-        raise MachineryError(f"KeywordTrace: {len(judged)}/{n} judged\n" + r.diagnosis())
+    v, r = tlc.run_trace("KeywordTrace", "SPECIFICATION Spec\nCHECK_DEADLOCK FALSE\n", path, n, max_lines=60000, max_bytes=40_000_000)
     res.add("trace_states", r.distinct)
     with open(path) as f:
         lines = f.read().splitlines()
